@@ -9,7 +9,7 @@
   `UpdateLastStateInfo`: `keep` is the (1-based) index of the state that stays the latest one and
   `kst` its new contents; the new latest height is `h' := kst.last`.
 -/
-import DymVerif.Lemmas.CoreForkSpec
+import DymVerif.Lemmas.CoreForkQuiet
 namespace DymVerif.C03
 open DymVerif DymVerif.Core
 
@@ -427,46 +427,8 @@ theorem fraud_is_fork (s s' : St) (au : Bool) (ra h rev : Nat) (pun rw : Option 
 theorem fork_to_latest (s s' : St) (ra : Nat) (e : hardForkToLatest s ra = .ok s') :
     ∃ r lh, getRa s ra = some r ∧ latestHeight r = some lh ∧ hardFork s ra lh = .ok s' ∧
       (Chain r.states → ∃ l, r.states.getLast? = some l ∧ (lh + 1) % 2 ^ 64 = lh + 1 ∧
-        revertPlan r ((lh + 1) % 2 ^ 64) = .ok (r.states.length, { l with next := NextP.empty })) := by
-  obtain ⟨r, lh, hg, hl, hf⟩ := hardForkToLatest_ok_elim e
-  refine ⟨r, lh, hg, hl, hf, ?_⟩
-  intro hc
-  obtain ⟨r1, keep, kst, hg1, _, _, _, hplan, _⟩ := hardFork_ok_elim hf
-  rw [hg] at hg1; injection hg1 with hg1; subst hg1
-  obtain ⟨st, l, ps⟩ := revertPlan_spec hc hplan
-  have hlh : lh = l.last := by
-    unfold latestHeight at hl; rw [ps.hl] at hl; injection hl with hl; exact hl.symm
-  have hwl := hc.wf l (List.mem_of_getLast? ps.hl)
-  have hov := hwl.no_overflow
-  have hnp := hwl.num_pos
-  have hll := hwl.last_eq
-  have hmod : (lh + 1) % 2 ^ 64 = lh + 1 := Nat.mod_eq_of_lt (by omega)
-  have hkl : kst.last = l.last := by
-    have := ps.h_min
-    rw [hmod] at this
-    omega
-  -- the kept index is the latest one
-  have hlen := getElem?_lt ps.hst
-  have hkp := ps.keep_pos
-  have hkeep : keep = r.states.length := by
-    rcases Nat.lt_or_ge keep r.states.length with h1 | h1
-    · exfalso
-      have hll2 : r.states[r.states.length - 1]? = some l := by rw [← getLast?_getElem?]; exact ps.hl
-      have := ps.above hc (r.states.length - 1) l (by omega) hll2
-      have := hwl.start_pos
-      omega
-    · omega
-  subst hkeep
-  have hsl : st = l := by
-    have h1 := ps.hst
-    rw [← getLast?_getElem?, ps.hl] at h1
-    injection h1 with h1; exact h1.symm
-  subst hsl
-  refine ⟨st, ps.hl, hmod, ?_⟩
-  rw [hplan]
-  have := ps.kst_eq
-  rw [hkl, hll, show st.start + st.num - 1 + 1 - st.start = st.num by omega, take_num_bds hwl] at this
-  rw [this]
+        revertPlan r ((lh + 1) % 2 ^ 64) = .ok (r.states.length, { l with next := NextP.empty })) :=
+  hardForkToLatest_plan e
 
 /-- **Kick**: an accepted kick removes the proposer abruptly, forks to the latest height, re-opts
     the kicker in and elects a new proposer. -/
@@ -488,6 +450,122 @@ theorem obsolete_is_forks (s s' : St) (au : Bool) (vs : List Nat) (e : markObsol
     au = true ∧ vs ≠ [] ∧
       ForkSeq { s with obsolete := vs.foldl (fun acc v => if acc.contains v then acc else acc ++ [v]) s.obsolete } s' :=
   markObsolete_ok_elim e
+
+-- ================================================================ reachable states
+
+/-- the three state invariants behind the clean forms below (with the chain and custody invariants of
+    C01 / C06) hold in every reachable state, for every parameter set and every op sequence … -/
+theorem reachable_inv (p : Params) (ops : List Op) : Inv (run p ops) := run_inv p ops
+
+/-- … and an accepted fork preserves them -/
+theorem fork_preserves_inv (s s' : St) (ra lv : Nat) (hi : Inv s) (e : hardFork s ra lv = .ok s') : Inv s' :=
+  ⟨hardFork_chain hi.chain e, hardFork_cust hi.cust e, hardFork_J hi.chain hi.j e⟩
+
+/-- **Liability invariant, every reachable state**: every (sequencer, height) liability refers to
+    an unfinalized height of a recorded state of the sequencer's own rollapp, created by that
+    sequencer. -/
+theorem liability_inv (p : Params) (ops : List Op) :
+    ∀ pr ∈ (run p ops).seqH, ∃ (q : Seq) (r : Rollapp) (i : Nat) (st : SInfo),
+      getSeq (run p ops) pr.1 = some q ∧ getRa (run p ops) q.rollapp = some r ∧ r.states[i]? = some st ∧
+      st.creator = pr.1 ∧ st.finalized = false ∧ st.start ≤ pr.2 ∧ pr.2 ≤ st.last := by
+  intro pr hpr
+  obtain ⟨ra, r, i, st, ⟨q, hq, hqr⟩, h2, h3, h4, h5, h6, h7⟩ := (run_inv p ops).j.liab pr hpr
+  exact ⟨q, r, i, st, hq, by rw [hqr]; exact h2, h3, h4, h5, h6, h7⟩
+
+/-- **Every reachable state**: the proposer and the successor of a rollapp, and the creator of each
+    of its recorded states, are sequencers of that rollapp. -/
+theorem roles_inv (p : Params) (ops : List Op) (id : Nat) (r : Rollapp) (hg : getRa (run p ops) id = some r) :
+    (∀ a, r.proposer = some a → ∃ q, getSeq (run p ops) a = some q ∧ q.rollapp = id) ∧
+    (∀ a, r.successor = some a → ∃ q, getSeq (run p ops) a = some q ∧ q.rollapp = id) ∧
+    (∀ st ∈ r.states, ∃ q, getSeq (run p ops) st.creator = some q ∧ q.rollapp = id) := by
+  have hj := (run_inv p ops).j
+  have hid := getRa_id hg
+  have hp := hj.prop id r hg
+  unfold PQ at hp
+  rw [hid] at hp
+  exact ⟨hp.1, hp.2, hj.creators id r hg⟩
+
+/-- **After a fork no liability of the forked rollapp lies above h'** (the clean form of
+    `fork_liability_pruned`, from the liability invariant): for a fork of a state satisfying the
+    invariants — every reachable state, also after the punishment / proposer removal that precede the
+    fork inside a fraud proposal / kick — no pair `(a, h)` with `a` a sequencer of `ra` and `h > h'`
+    remains. -/
+theorem fork_no_liability_above (s s' : St) (ra lv keep : Nat) (r : Rollapp) (kst : SInfo) (hi : Inv s)
+    (hg : getRa s ra = some r) (hplan : revertPlan r ((lv + 1) % 2 ^ 64) = .ok (keep, kst))
+    (e : hardFork s ra lv = .ok s') :
+    ∀ pr ∈ s'.seqH, ∀ q, getSeq s' pr.1 = some q → q.rollapp = ra → pr.2 ≤ kst.last := by
+  intro pr hpr q hq hqr
+  obtain ⟨ra0, r0, i, st, ⟨q', hq', hqr'⟩, h2, h3, _, _, _, h7⟩ := (hardFork_J hi.chain hi.j e).liab pr hpr
+  rw [hq] at hq'; injection hq' with hq'; subst hq'
+  rw [hqr] at hqr'; subst hqr'
+  have hb := (fork_states_above_removed s s' ra lv keep r r0 kst (hi.chain.get hg) hg hplan e h2).2.2.2.2.2.1
+  exact Nat.le_trans h7 (hb st (List.mem_of_getElem? h3)).1
+
+/-- **Everything belonging to other rollapps is unchanged** (sequencer side): for a fork of a state
+    satisfying the invariants, the record of every sequencer of another rollapp is literally the
+    same and every liability of such a sequencer is kept.  (Rollapp records and queue entries of
+    other rollapps: `fork_frame`, `fork_queue_pruned`.) -/
+theorem fork_other_rollapps_untouched (s s' : St) (ra lv keep : Nat) (r : Rollapp) (kst : SInfo) (hi : Inv s)
+    (hg : getRa s ra = some r) (hplan : revertPlan r ((lv + 1) % 2 ^ 64) = .ok (keep, kst))
+    (e : hardFork s ra lv = .ok s') :
+    (∀ a q, getSeq s a = some q → q.rollapp ≠ ra → getSeq s' a = some q) ∧
+    (∀ pr ∈ s.seqH, ∀ q, getSeq s pr.1 = some q → q.rollapp ≠ ra → pr ∈ s'.seqH) := by
+  have hid := getRa_id hg
+  constructor
+  · intro a q hq hne
+    rw [hardFork_getSeq hg e a, hq]
+    have h1 : (q.rollapp == ra) = false := by simp [hne]
+    have h2 : ¬ r.proposer = some a := by
+      intro hc
+      obtain ⟨q', hq', hqr'⟩ := (hi.j.prop ra r hg).1 a hc
+      rw [hq] at hq'; injection hq' with hq'; subst hq'
+      exact hne (hqr'.trans hid)
+    simp only [Option.map_some, h1, if_neg h2, Bool.false_eq_true, if_false]
+  · intro pr hpr q hq hne
+    have hcr : ∀ st ∈ r.states, st.creator ≠ pr.1 := by
+      intro st hst hc
+      obtain ⟨q', hq', hqr'⟩ := hi.j.creators ra r hg st hst
+      rw [hc, hq] at hq'; injection hq' with hq'; subst hq'
+      exact hne hqr'
+    obtain ⟨stk, l, ps⟩ := revertPlan_spec (hi.chain.get hg) hplan
+    refine (fork_liability_pruned s s' ra lv keep r kst hg hplan e).2.2.1 pr hpr ?_ ?_
+    · rw [ps.kst_creator]
+      exact fun hc => hcr stk (List.mem_of_getElem? ps.hst) hc.symm
+    · intro st hst
+      exact hcr st (List.mem_of_mem_drop hst)
+
+/-- **The forked rollapp's record, reachable states**: with the invariants the proposer is always
+    reset to the sentinel, so the record after the fork is exactly this one. -/
+theorem fork_rollapp_record (s s' : St) (ra lv keep : Nat) (r : Rollapp) (kst : SInfo) (hi : Inv s)
+    (hg : getRa s ra = some r) (hplan : revertPlan r ((lv + 1) % 2 ^ 64) = .ok (keep, kst))
+    (e : hardFork s ra lv = .ok s') :
+    getRa s' ra = some { r with states := r.states.take (keep - 1) ++ [kst],
+                                revs := r.revs ++ [(latestRev r + 1, kst.last + 1)],
+                                evH := 0, cdStart := s.h, proposer := none, successor := none } := by
+  obtain ⟨p', h1, h2⟩ := hardFork_getRa_same hg hplan e
+  rcases h2 with h2 | ⟨_, a, h3, h4⟩
+  · rw [h2] at h1; exact h1
+  · exfalso
+    obtain ⟨q, hq, _⟩ := (hi.j.prop ra r hg).1 a h3
+    rw [h4] at hq; cases hq
+
+/-- **The next accepted update after a fork, any history in between**: start from any state
+    satisfying the invariants (every reachable state), fork rollapp `ra`, then run any op sequence in
+    which every op either is rejected or is not an update of `ra`, a fraud proposal against `ra`, a
+    kick by a sequencer of `ra` or an obsolete marking (all other messages, updates and forks of other
+    rollapps, block processing with finalization and liveness slashing are allowed).  Then an accepted
+    update of `ra` has `start = h' + 1` and carries the bumped revision. -/
+theorem post_fork_update_any_history (s s' : St) (ra lv keep : Nat) (r : Rollapp) (kst : SInfo) (hi : Inv s)
+    (hg : getRa s ra = some r) (hplan : revertPlan r ((lv + 1) % 2 ^ 64) = .ok (keep, kst))
+    (e : hardFork s ra lv = .ok s') (ops2 : List Op) (hq : Quiet ra s' ops2) (s3 : St) (m : UpdMsg)
+    (hm : m.ra = ra) (acc : apply (ops2.foldl (fun s o => (step s o).1) s') (.update m) = .ok s3) :
+    m.start = kst.last + 1 ∧ m.rev = latestRev r + 1 := by
+  have hi' := fork_preserves_inv s s' ra lv hi e
+  obtain ⟨k2, i2⟩ := quiet_rk hi' hq
+  have hr' := fork_rollapp_record s s' ra lv keep r kst hi hg hplan e
+  obtain ⟨r2, hg2, hrevs, hlat⟩ := k2 _ hr'
+  exact post_fork_update s s' ra lv keep r _ kst (hi.chain.get hg) hg hplan e hr' _ s3 r2 m hm hg2
+    (i2.chain.get hg2) hrevs hlat acc
 
 -- ================================================================ non-vacuity
 
